@@ -806,3 +806,22 @@ def fam_clocks_condaux():
                     yield ("clocks-condaux/%r/k%d/%s/%s" % (tick, k, kind, where),
                            dict(tick=tick, inits=[], framers=[dict(name="m", schedule="active", frames=frames), aux_framer_ext("x", kind)]),
                            dict(tick=tick, T=T, N=k, clocked=()))
+
+
+def fam_clone_guards():
+    """moot framers whose frames carry `let` entry guards, plain and NEGATED, alone and in conjunctions, cloned as
+    named / insular clones: every clone must be guarded exactly like its original declared as an ordinary auxiliary."""
+    ctxs = ("benter", "enter", "exit", "recur")
+    NE1 = ("cmp", "env.e1", "==", 1, None, True)         # not env.e1 == 1
+    guardsets = {"not": [NE1], "plain": [E1], "and-not": [E0, NE1], "not-and": [NE1, E0],
+                 "not-tol": [("cmp", "env.e1", "==", 1, 0.5, True)]}
+    for gname, guards in guardsets.items():
+        for first_guarded in (False, True):
+            a_items = ([("let", list(guards))] if first_guarded else []) + recs("a", ctxs) + [("go", "next", [E0])]
+            b_items = [("let", list(guards))] + recs("b", ctxs) + [("go", "a", [E0])]
+            mo = dict(name="mg", schedule="moot", frames=[dict(name="a", items=a_items), dict(name="b", items=b_items)])
+            for tags in (("c1",), ("mine",), ("c1", "mine")):
+                f0 = recs("f0", ("enter", "exit", "recur")) + [("auxclone", "mg", t) for t in tags]
+                prog = dict(tick=0.125, inits=list(ENV_INITS),
+                            framers=[dict(name="m", schedule="active", frames=[dict(name="f0", items=f0)]), mo])
+                yield ("cloneguards/%s/%s/%s" % (gname, "first" if first_guarded else "second", "+".join(tags)), prog, dict())
